@@ -10,6 +10,8 @@ pub enum FsInfoInit {
     Correct,
     Unknown,
     Custom { count: u32, hint: u32 },
+    /// correct count, but the (advisory) next-free hint names a cluster that is in use
+    HintInUse,
 }
 
 #[derive(Clone, Debug)]
@@ -181,8 +183,9 @@ impl Geom {
                 2 => clusters + 1, // the very last cluster
                 _ => 2 + rng.below(clusters as u64) as u32,
             };
-            g.fsinfo = match rng.below(4) {
+            g.fsinfo = match rng.below(5) {
                 0 => FsInfoInit::Unknown,
+                1 => FsInfoInit::HintInUse,
                 _ => FsInfoInit::Correct,
             };
             g.high_nibbles = rng.chance(1, 3);
@@ -734,6 +737,11 @@ impl Fmt {
                 FsInfoInit::Correct => (free, first_free.unwrap_or(0xFFFF_FFFF)),
                 FsInfoInit::Unknown => (0xFFFF_FFFF, 0xFFFF_FFFF),
                 FsInfoInit::Custom { count, hint } => (count, hint),
+                FsInfoInit::HintInUse => {
+                    let used: Vec<u32> = (2..g.clusters + 2).filter(|&c| self.fat[c as usize] & 0x0FFF_FFFF != 0).collect();
+                    let pick = if used.is_empty() { 2 } else { used[(used.len() * 2 / 3).min(used.len() - 1)] };
+                    (free, pick)
+                }
             };
             s[488..492].copy_from_slice(&count.to_le_bytes());
             s[492..496].copy_from_slice(&hint.to_le_bytes());
